@@ -1,11 +1,251 @@
 package main
 
 import (
+	"fmt"
 	"go/ast"
 	"go/token"
+	"strconv"
+	"strings"
 )
 
-// schedTarget says whether a file takes part in scheduler instrumentation (filled in with the scheduler engine).
-func schedTarget(dir, name string) bool { return false }
+// Scheduler instrumentation (syntactic; see DESIGN.md 3.3). Applied to the files that contain the SDK's in-process
+// synchronisation: key cache, generic cache, session cache, crypto key, and both secure-memory implementations.
+var schedFiles = map[string]bool{
+	"go/appencryption/key_cache.go":             true,
+	"go/appencryption/session_cache.go":         true,
+	"go/appencryption/session.go":               true,
+	"go/appencryption/envelope.go":              true,
+	"go/appencryption/internal/key.go":          true,
+	"go/appencryption/pkg/cache/cache.go":       true,
+	"go/securememory/protectedmemory/secret.go": true,
+	"go/securememory/memguard/secret.go":        true,
+}
 
-func instrumentSched(fset *token.FileSet, f *ast.File) bool { return false }
+func schedTarget(dir, name string) bool { return schedFiles[dir+"/"+name] }
+
+type instr struct {
+	fset    *token.FileSet
+	fn      string
+	n       int
+	changed bool
+}
+
+func (in *instr) label(op string) *ast.BasicLit {
+	in.n++
+	return &ast.BasicLit{Kind: token.STRING, Value: strconv.Quote(fmt.Sprintf("%s#%s%d", in.fn, op, in.n))}
+}
+
+func vrtCall(name string, args ...ast.Expr) *ast.CallExpr {
+	return &ast.CallExpr{Fun: &ast.SelectorExpr{X: ast.NewIdent("vrt"), Sel: ast.NewIdent(name)}, Args: args}
+}
+
+func lastName(e ast.Expr) string {
+	switch x := e.(type) {
+	case *ast.Ident:
+		return x.Name
+	case *ast.SelectorExpr:
+		return x.Sel.Name
+	case *ast.StarExpr:
+		return lastName(x.X)
+	case *ast.ParenExpr:
+		return lastName(x.X)
+	case *ast.UnaryExpr:
+		return lastName(x.X)
+	}
+	return ""
+}
+
+// selCall returns (receiver, method) for a call of the form X.m(...)
+func selCall(e ast.Expr) (ast.Expr, string, *ast.CallExpr) {
+	c, ok := e.(*ast.CallExpr)
+	if !ok {
+		return nil, "", nil
+	}
+	s, ok := c.Fun.(*ast.SelectorExpr)
+	if !ok {
+		return nil, "", nil
+	}
+	return s.X, s.Sel.Name, c
+}
+
+func isCondName(n string) bool { return n == "cond" || n == "c" }
+func isWGName(n string) bool   { return strings.Contains(n, "WG") || strings.Contains(n, "wg") }
+func isChanName(n string) bool { return n == "events" }
+
+// hasAtomic reports whether the statement (not descending into nested blocks / function literals) uses an atomic.
+func hasAtomic(n ast.Node) bool {
+	found := false
+	ast.Inspect(n, func(x ast.Node) bool {
+		switch x.(type) {
+		case *ast.BlockStmt, *ast.FuncLit:
+			return false
+		}
+		recv, m, c := selCall0(x)
+		if c == nil {
+			return true
+		}
+		switch m {
+		case "Add", "Load", "Store", "CompareAndSwap", "Swap":
+			if lastName(recv) == "refs" {
+				found = true
+			}
+		}
+		if id, ok := recv.(*ast.Ident); ok && id.Name == "atomic" {
+			found = true
+		}
+		return true
+	})
+	return found
+}
+
+func selCall0(n ast.Node) (ast.Expr, string, *ast.CallExpr) {
+	e, ok := n.(ast.Expr)
+	if !ok {
+		return nil, "", nil
+	}
+	return selCall(e)
+}
+
+// rewriteStmt returns the statements that replace s.
+func (in *instr) rewriteStmt(s ast.Stmt) []ast.Stmt {
+	switch st := s.(type) {
+	case *ast.ExprStmt:
+		recv, m, call := selCall(st.X)
+		if call != nil && len(call.Args) == 0 {
+			switch m {
+			case "Lock", "RLock":
+				try := "TryLock"
+				if m == "RLock" {
+					try = "TryRLock"
+				}
+				in.changed = true
+				return []ast.Stmt{&ast.ExprStmt{X: vrtCall("Acquire",
+					&ast.SelectorExpr{X: recv, Sel: ast.NewIdent(try)}, &ast.SelectorExpr{X: recv, Sel: ast.NewIdent(m)}, in.label(m))}}
+			case "Unlock", "RUnlock":
+				in.changed = true
+				return []ast.Stmt{st, &ast.ExprStmt{X: vrtCall("Released", in.label(m))}}
+			case "Wait":
+				if isCondName(lastName(recv)) {
+					in.changed = true
+					return []ast.Stmt{&ast.ExprStmt{X: vrtCall("CondWait", recv, in.label("CondWait"))}}
+				}
+				if isWGName(lastName(recv)) {
+					in.changed = true
+					return []ast.Stmt{&ast.ExprStmt{X: vrtCall("WGWait", &ast.UnaryExpr{Op: token.AND, X: recv}, in.label("WGWait"))}}
+				}
+			case "Broadcast", "Signal":
+				if isCondName(lastName(recv)) {
+					in.changed = true
+					return []ast.Stmt{&ast.ExprStmt{X: vrtCall("CondBroadcast", recv)}}
+				}
+			case "Done":
+				if isWGName(lastName(recv)) {
+					in.changed = true
+					return []ast.Stmt{&ast.ExprStmt{X: vrtCall("WGDone", &ast.UnaryExpr{Op: token.AND, X: recv})}}
+				}
+			}
+		}
+		if call != nil && len(call.Args) == 1 && m == "Add" && isWGName(lastName(recv)) {
+			in.changed = true
+			return []ast.Stmt{&ast.ExprStmt{X: vrtCall("WGAdd", &ast.UnaryExpr{Op: token.AND, X: recv}, call.Args[0])}}
+		}
+		// close(ch)
+		if c, ok := st.X.(*ast.CallExpr); ok {
+			if id, ok := c.Fun.(*ast.Ident); ok && id.Name == "close" && len(c.Args) == 1 && isChanName(lastName(c.Args[0])) {
+				in.changed = true
+				return []ast.Stmt{&ast.ExprStmt{X: vrtCall("ChanClose", c.Args[0])}}
+			}
+		}
+	case *ast.DeferStmt:
+		recv, m, call := selCall(st.Call)
+		if call != nil && len(call.Args) == 0 {
+			switch m {
+			case "Unlock", "RUnlock":
+				in.changed = true
+				// deferred calls run last-in-first-out: the yield registered first runs after the unlock
+				return []ast.Stmt{&ast.DeferStmt{Call: vrtCall("Released", in.label(m))}, st}
+			case "Broadcast", "Signal":
+				if isCondName(lastName(recv)) {
+					in.changed = true
+					return []ast.Stmt{&ast.DeferStmt{Call: vrtCall("CondBroadcast", recv)}}
+				}
+			case "Done":
+				if isWGName(lastName(recv)) {
+					in.changed = true
+					return []ast.Stmt{&ast.DeferStmt{Call: vrtCall("WGDone", &ast.UnaryExpr{Op: token.AND, X: recv})}}
+				}
+			}
+		}
+	case *ast.GoStmt:
+		in.changed = true
+		body := &ast.BlockStmt{List: []ast.Stmt{&ast.ExprStmt{X: st.Call}}}
+		return []ast.Stmt{&ast.ExprStmt{X: vrtCall("Go", in.label("go"), &ast.FuncLit{Type: &ast.FuncType{Params: &ast.FieldList{}}, Body: body})}}
+	case *ast.SendStmt:
+		if isChanName(lastName(st.Chan)) {
+			in.changed = true
+			return []ast.Stmt{&ast.ExprStmt{X: vrtCall("ChanSend", st.Chan, st.Value, in.label("send"))}}
+		}
+	case *ast.RangeStmt:
+		if isChanName(lastName(st.X)) && st.Key != nil && st.Value == nil && st.Tok == token.DEFINE {
+			in.changed = true
+			okID := ast.NewIdent("vrtOK")
+			recv := &ast.AssignStmt{Lhs: []ast.Expr{st.Key, okID}, Tok: token.DEFINE, Rhs: []ast.Expr{vrtCall("ChanRecv", st.X, in.label("recv"))}}
+			brk := &ast.IfStmt{Cond: &ast.UnaryExpr{Op: token.NOT, X: okID}, Body: &ast.BlockStmt{List: []ast.Stmt{&ast.BranchStmt{Tok: token.BREAK}}}}
+			body := &ast.BlockStmt{List: append([]ast.Stmt{recv, brk}, st.Body.List...)}
+			return []ast.Stmt{&ast.ForStmt{Body: body}}
+		}
+	}
+	return []ast.Stmt{s}
+}
+
+func (in *instr) block(list []ast.Stmt) []ast.Stmt {
+	var out []ast.Stmt
+	for _, s := range list {
+		if hasAtomic(s) {
+			in.changed = true
+			out = append(out, &ast.ExprStmt{X: vrtCall("Yield", in.label("atomic"))})
+		}
+		out = append(out, in.rewriteStmt(s)...)
+	}
+	return out
+}
+
+func instrumentSched(fset *token.FileSet, f *ast.File) bool {
+	any := false
+	for _, d := range f.Decls {
+		fd, ok := d.(*ast.FuncDecl)
+		if !ok || fd.Body == nil {
+			continue
+		}
+		name := fd.Name.Name
+		if fd.Recv != nil && len(fd.Recv.List) > 0 {
+			name = lastName(fd.Recv.List[0].Type) + "." + name
+			if ix, ok := fd.Recv.List[0].Type.(*ast.StarExpr); ok {
+				if il, ok := ix.X.(*ast.IndexListExpr); ok {
+					name = lastName(il.X) + "." + fd.Name.Name
+				} else if ie, ok := ix.X.(*ast.IndexExpr); ok {
+					name = lastName(ie.X) + "." + fd.Name.Name
+				}
+			}
+		}
+		in := &instr{fset: fset, fn: name}
+		// rewrite every statement list in the function (blocks, case clauses), innermost first
+		ast.Inspect(fd.Body, func(n ast.Node) bool {
+			switch b := n.(type) {
+			case *ast.BlockStmt:
+				defer func() { b.List = in.block(b.List) }()
+			case *ast.CaseClause:
+				defer func() { b.Body = in.block(b.Body) }()
+			case *ast.CommClause:
+				defer func() { b.Body = in.block(b.Body) }()
+			}
+			return true
+		})
+		// the deferred rewrites above run when Inspect's callback returns, i.e. before children are visited;
+		// children were therefore replaced already - walk again to reach newly created nested blocks once
+		if in.changed {
+			any = true
+		}
+	}
+	return any
+}
